@@ -14,7 +14,7 @@
 From Coq Require Import List NArith ZArith Bool Lia Sorted.
 From Abasic Require Import Model.Bytes Model.Num Model.Token Model.Data Model.Lexer Gen.Tables
      Model.State Model.Eval Model.Interp Ref.RefSem Proofs.ExprSem Proofs.RefProofs Proofs.StmtSim
-     Proofs.ProgSim.
+     Proofs.ProgSim Proofs.ProgRun.
 From Abasic Require Proofs.StoreProofs.
 Import ListNotations.
 Local Open Scope nat_scope.
@@ -194,6 +194,16 @@ Check C03_fragment_simulation : forall F p o0 k pc st s,
   | NoFuel => False
   end.
 
+(* ... and RUN: for a program of the fragment stored in an idle interpreter,
+   the host call start_evaluating("RUN") IS the first call of a run that
+   simulates the reference interpreter from its initial state (variables
+   cleared, at the first line) *)
+Theorem C03_run_simulates : forall F p s seed n stmts,
+  Inv F p s -> state s = Idle -> nth_error p 0 = Some (n, stmts) ->
+  (forall fuel, start_evaluating fuel (bs "RUN") s = continue_evaluating fuel (run_start s))
+  /\ forall k, after_step F p (outputs s) (rrun F p k (0, 0) (r_init seed)) (run_start s).
+Proof. exact run_simulates. Qed.
+
 (* non-vacuity of (4): the program  10 I = I + 1 / 20 PRINT I; / 30 IF I < 3
    THEN 10 / 40 END  typed into a fresh interpreter and started: the tokens are
    the tokenizer's, the configuration is related to the reference's initial
@@ -291,3 +301,4 @@ Print Assumptions C03_same_store_reads.
 Print Assumptions C03_print_statement_simulates.
 Print Assumptions C03_fragment_simulation.
 Print Assumptions ex_runs.
+Print Assumptions C03_run_simulates.
